@@ -665,58 +665,76 @@ for _m in _BACKENDS:
         call=_with_libs(lambda fn, a: fn(a["backend"], a["otf"], a["cffVersion"])),
     )
 
-# ---- process_cff --------------------------------------------------------------------------------------------------------------
+# ---- the decision table of the property, as clause text --------------------------------------------------------------------------
 # `subroutinizer` is split into the four cases None / "cffsubr" / "compreffor" / any other string (lemma
 # C12.subroutinizer-cases: the four cases cover Optional[str]); in each, the backend member is a python-level constant.
-# IN / OUT: the CFF format found in the font / asked for, as the property names them.
-_IN = "(1 if old('CFF ' in self.otf) else 2)"
-_OUT = f"({_IN} if cffVersion is None else cffVersion)"
-_IN0 = "(1 if 'CFF ' in self.otf else 2)"  # the same two, for clauses that are evaluated in the pre-state (raises)
-_OUT0 = f"({_IN0} if cffVersion is None else cffVersion)"
-_NO_TABLE = "('CFF ' not in self.otf and 'CFF2' not in self.otf)"
-_BAD_VERSION = "(cffVersion is not None and cffVersion != 1 and cffVersion != 2)"
-_DOWNGRADE = f"(not OPT and {_IN0} == 2 and {_OUT0} == 1)"  # CFF2 -> CFF without subroutinising: unsupported
-_SELF_LOG = "{o}.libs.calls"
-
-
-def _cff_cases(opt):
-    """the decision table of process_cff as (ValueError-iff, NotImplementedError-iff, ensures) per subroutinizer case;
-    `opt` = clause text of "charstrings are to be subroutinised" """
-    sub_cffsubr = {
-        "subroutinize-with-cffsubr": f"implies({opt}, " + one_call("self.otf", "cffsubr.subroutinize", _OUT, False) + ")",
-    }
-    sub_compreffor = {
-        "subroutinize-with-compreffor": f"implies({opt}, " + one_call("self.otf", "compreffor.compress", None, None) + ")",
-    }
-    common = {
-        # no optimisation: nothing for equal formats, the fontTools converter for CFF -> CFF2
-        "no-optimize-same-version": f"implies(not {opt} and {_IN} == {_OUT}, " + no_call("self.otf") + ")",
-        "no-optimize-convert": f"implies(not {opt} and {_IN} == 1 and {_OUT} == 2, " + one_call("self.otf", "convertCFFToCFF2", None, None) + ")",
-        # the font ends up with the requested CFF format
-        "requested-flavour": f"iff('CFF ' in self.otf, {_OUT} == 1) and implies({_OUT} == 2, 'CFF2' in self.otf) "
-                             f"and implies({_OUT} == 1 and not old('CFF ' in self.otf and 'CFF2' in self.otf), 'CFF2' not in self.otf)",
-        "same-font-object": "self.otf_id == old(self.otf_id)",
-    }
-    down = _DOWNGRADE.replace("OPT", opt)
-    ve = f"{_NO_TABLE} or {_BAD_VERSION}"
-    return {
-        "default": (ve, f"not ({ve}) and {down}", {**sub_cffsubr, **common}),
-        "cffsubr": (ve, f"not ({ve}) and {down}", {**sub_cffsubr, **common}),
-        "compreffor": (ve, f"not ({ve}) and ({down} or ({opt} and ({_IN0} != 1 or {_OUT0} != 1)))", {**sub_compreffor, **common}),
-        "unknown": (f"{ve} or {opt}", f"not ({ve} or {opt}) and {down}", dict(common)),
-    }
-
-
 _SUB_PARAM = {"default": Const(None), "cffsubr": Const("cffsubr"), "compreffor": Const("compreffor"), "unknown": STR}
-_SUB_REQ = {"unknown": ["subroutinizer != 'cffsubr' and subroutinizer != 'compreffor'"]}
 _SUB_VALUES = {"default": [None], "cffsubr": ["cffsubr"], "compreffor": ["compreffor"], "unknown": ["tx", "", "CFFSUBR", "cffsubr "]}
-_PCFF_MOD = ["C12Libs.calls", "PPFont.pristine", "PPFont.CFF2_loaded"] + _TABLES_MOD + c11._POST_FIELDS
+
+
+class Table:
+    """The decision table for one entry point.  opt: clause text of "charstrings are to be subroutinised"; pre / post:
+    expressions denoting the font before / after (the same object for process_cff; process and postprocess may end with a
+    reloaded font); ver: the requested CFF version (None = as the input); sub: the subroutinizer argument; log: the library log.
+    IN / OUT = the CFF format found in the font / asked for, as the property names them."""
+
+    def __init__(self, opt, pre, post, ver="cffVersion", sub="subroutinizer", log="self.libs.calls"):
+        self.opt, self.pre, self.post, self.ver, self.sub, self.log = opt, pre, post, ver, sub, log
+        self.IN = f"(1 if old('CFF ' in {pre}) else 2)"
+        self.OUT = f"({self.IN} if {ver} is None else {ver})"
+        # the same two for clauses evaluated in the pre-state (raises, requires)
+        self.IN0 = f"(1 if 'CFF ' in {pre} else 2)"
+        self.OUT0 = f"({self.IN0} if {ver} is None else {ver})"
+        self.has_table0 = f"('CFF ' in {pre} or 'CFF2' in {pre})"
+        self.bad_version0 = f"({ver} is not None and {ver} != 1 and {ver} != 2)"
+        self.downgrade0 = f"(not ({opt}) and {self.IN0} == 2 and {self.OUT0} == 1)"  # CFF2 -> CFF without subroutinising: unsupported
+
+    def one_call(self, fn, ver, keep):
+        L = self.log
+        return (f"len({L}) == len(old({L})) + 1 and {L}[:-1] == old({L}) and {L}[-1].fn == {fn!r} and {L}[-1].font == old({self.pre}.font_id) "
+                f"and {L}[-1].cff_version == {ver} and {L}[-1].keep_glyph_names == {keep}")
+
+    def no_call(self):
+        return f"{self.log} == old({self.log})"
+
+    def value_error(self, case):
+        """ValueError iff (given that the font has a CFF/CFF2 table): invalid version, or an unknown subroutinizer is needed"""
+        return self.bad_version0 + (f" or ({self.opt})" if case == "unknown" else "")
+
+    def not_implemented(self, case):
+        extra = f" or (({self.opt}) and ({self.IN0} != 1 or {self.OUT0} != 1))" if case == "compreffor" else ""
+        return f"not ({self.value_error(case)}) and ({self.downgrade0}{extra})"
+
+    def ensures(self, case):
+        opt, IN, OUT = self.opt, self.IN, self.OUT
+        sub = {
+            "cffsubr": {"subroutinize-with-cffsubr": f"implies({opt}, " + self.one_call("cffsubr.subroutinize", OUT, False) + ")"},
+            "compreffor": {"subroutinize-with-compreffor": f"implies({opt}, " + self.one_call("compreffor.compress", None, None) + ")"},
+            "unknown": {},
+        }
+        sub["default"] = sub["cffsubr"]  # "By default cffsubr is used for both CFF 1 and CFF 2"
+        return {
+            **sub[case],
+            # no optimisation: nothing for equal formats, the fontTools converter for CFF -> CFF2
+            "no-optimize-same-version": f"implies(not ({opt}) and {IN} == {OUT}, " + self.no_call() + ")",
+            "no-optimize-convert": f"implies(not ({opt}) and {IN} == 1 and {OUT} == 2, " + self.one_call("convertCFFToCFF2", None, None) + ")",
+            # the font ends up with the requested CFF format
+            "requested-flavour": f"iff('CFF ' in {self.post}, {OUT} == 1) and implies({OUT} == 2, 'CFF2' in {self.post})",
+        }
+
 
 lemma(
     "C12.subroutinizer-cases", props=["C12"], vars={"s": Opt(STR)},
     hyps=[], concl={"cover": "s is None or s == 'cffsubr' or s == 'compreffor' or (s != 'cffsubr' and s != 'compreffor')"},
     canaries={"three-suffice": "s is None or s == 'cffsubr' or s == 'compreffor'"},
 )
+
+# ---- process_cff --------------------------------------------------------------------------------------------------------------
+_PCFF_MOD = ["C12Libs.calls", "PPFont.pristine", "PPFont.CFF2_loaded"] + _TABLES_MOD + c11._POST_FIELDS
+
+
+def _sub_req(case, sub="subroutinizer"):
+    return [f"{sub} != 'cffsubr' and {sub} != 'compreffor'"] if case == "unknown" else []
 
 
 def _default_member():
@@ -725,8 +743,8 @@ def _default_member():
 
 
 def _sub_calls(case):
-    """which `_subroutinize` variant a process_cff variant reaches"""
-    # (`unknown`: SubroutinizerBackend(subroutinizer) raises; the call below it is on an infeasible path and only needs to resolve)
+    """which `_subroutinize` variant a process_cff variant reaches
+    (`unknown`: SubroutinizerBackend(subroutinizer) raises; the call below it is on an infeasible path and only needs to resolve)"""
     member = {"default": _default_member(), "cffsubr": "cffsubr", "compreffor": "compreffor", "unknown": list(_BACKENDS)[0].value}[case]
     return {f"{PP}._subroutinize": f"{PP}._subroutinize#{member}"} if member else {}
 
@@ -746,17 +764,20 @@ def _fake_pp(d):
 
 # the table as the property words it (default backend = cffsubr for both versions); a different default table in the
 # code makes the `default` variant fail or fall out of reach
-_TABLE = _cff_cases("optimizeCFF")
-for _case, (_ve, _nie, _post) in _TABLE.items():
+_T_PCFF = Table("optimizeCFF", "self.otf", "self.otf")
+for _case in _SUB_PARAM:
     contract(
         f"{PP}.process_cff", name=_case, props=["C12"],
         params={"self": Ref("PostProcessor"), "optimizeCFF": BOOL, "cffVersion": Opt(INT), "subroutinizer": _SUB_PARAM[_case]},
-        requires=_SUB_REQ.get(_case, []),
+        requires=_sub_req(_case),
         calls=_sub_calls(_case),
         modifies=_PCFF_MOD,
-        raises={"ValueError": _ve, "NotImplementedError": _nie},
-        ensures=_post,
-        canaries={"never-a-library-call": no_call("self.otf"), "always-cff1": "'CFF ' in self.otf"},
+        raises={
+            "ValueError": f"not {_T_PCFF.has_table0} or {_T_PCFF.value_error(_case)}",
+            "NotImplementedError": f"{_T_PCFF.has_table0} and {_T_PCFF.not_implemented(_case)}",
+        },
+        ensures={**_T_PCFF.ensures(_case), "same-font-object": "self.otf_id == old(self.otf_id)"},
+        canaries={"never-a-library-call": _T_PCFF.no_call(), "always-cff1": "'CFF ' in self.otf"},
     )
     CONTRACTS[f"{PP}.process_cff#{_case}"].runtime = Runtime(
         _pcff_gen(_case),
@@ -770,38 +791,323 @@ for _case, (_ve, _nie, _post) in _TABLE.items():
 # is left alone by this step.  The glyph-name step that follows (process_glyph_names, C11) calls none of the libraries
 # (its frame does not contain the log) and keeps the table set, so the table of process_cff is the table of process.
 CLASSES["PostProcessor"].fields.setdefault("info", Opt(Dict(STR, STR)))
-_PGN_REQ = CONTRACTS[f"{PP}.process_glyph_names"].requires
 _PROCESS_MOD = sorted(set(_PCFF_MOD) | set(CONTRACTS[f"{PP}.process_glyph_names"].modifies))
 _OPT_KINDS = {"bool": (BOOL, "optimizeCFF", [False, True]), "level": (INT, "optimizeCFF >= 2", [-1, 0, 1, 2, 3, 7])}
-_HAS_TABLE0 = f"not {_NO_TABLE}"
 
 
-def _process_gen(kind, case):
-    def gen(rng, n):
-        return [{"tags": t, "opt": o, "ver": v, "sub": s, "upn": u} for t in _TAGSETS for o in _OPT_KINDS[kind][2] for v in (None, 1, 2, 0, 3)
-                for s in _SUB_VALUES[case] for u in (False,)]
+def renames_cff1(T, K, U):
+    """C11's contract of process_glyph_names does not cover renaming a font that has a 'CFF ' table (charset / CharStrings are
+    rewritten by a dict comprehension with computed keys, see notes/C11.md); it is called AFTER the CFF step, when the font
+    has a 'CFF ' table iff it had a CFF/CFF2 table and the output format is 1.  K, U: clause texts of keepGlyphNames / useProductionNames."""
+    return f"(({K}) and ({U}) and {T.has_table0} and {T.OUT0} == 1)"
 
-    return gen
+
+def process_contract_parts(T, case, K, U):
+    old_has = "old(" + T.has_table0 + ")"
+    ens = {k: f"implies({old_has}, {v})" for k, v in T.ensures(case).items()}
+    # a font without CFF/CFF2 table is none of this step's business
+    ens["no-cff-table-nothing-to-do"] = f"implies(not {old_has}, " + T.no_call() + ")"
+    raises = {"ValueError": f"{T.has_table0} and ({T.value_error(case)})", "NotImplementedError": f"{T.has_table0} and {T.not_implemented(case)}"}
+    return ens, raises, f"not {renames_cff1(T, K, U)}"
 
 
 for _kind, (_oty, _opt, _) in _OPT_KINDS.items():
-    for _case, (_ve, _nie, _post) in _cff_cases(_opt).items():
-        _old_has = "old(" + _HAS_TABLE0 + ")"
-        _ens = {k: f"implies({_old_has}, {v})" for k, v in _post.items() if k != "same-font-object"}
-        _ens["no-cff-table-nothing-to-do"] = f"implies(not {_old_has}, " + no_call("self") + ")"
-        _ens["returns-the-font"] = "result.font_id == self.otf_id"
+    _T = Table(_opt, "self.otf", "self.otf")
+    for _case in _SUB_PARAM:
+        _ens, _raises, _req = process_contract_parts(_T, _case, c11._K, c11._U)
         contract(
             f"{PP}.process", name=f"{_kind}/{_case}", props=["C12"],
             params={"self": Ref("PostProcessor"), "useProductionNames": Opt(BOOL), "optimizeCFF": _oty, "cffVersion": Opt(INT), "subroutinizer": _SUB_PARAM[_case]},
             returns=Ref("PPFont"),
-            requires=_SUB_REQ.get(_case, []) + [
+            requires=_sub_req(_case) + [
                 # compileOTF / compileTTF reach process through BaseCompiler.compile -> postprocess(font, ufo, glyphSet): info=None
                 # (only variable-font builds pass fontinfo overrides; apply_fontinfo is C16's InfoCompiler)
                 "self.info is None",
-            ] + _PGN_REQ,
+                _req,
+            ],
             calls={f"{PP}.process_cff": f"{PP}.process_cff#{_case}"},
             modifies=_PROCESS_MOD,
-            raises={"ValueError": f"{_HAS_TABLE0} and ({_ve})", "NotImplementedError": f"{_HAS_TABLE0} and ({_nie})"},
-            ensures=_ens,
-            canaries={"never-a-library-call": no_call("self"), "always-cff1": "'CFF ' in self.otf"},
+            raises=_raises,
+            ensures={**_ens, "returns-the-font": "result.font_id == self.otf_id"},
+            canaries={"never-a-library-call": _T.no_call(), "always-cff1": "'CFF ' in self.otf"},
         )
+
+
+# run-time side of process: REAL compiled fonts (OutlineOTFCompiler / OutlineTTFCompiler output, optionally converted to
+# CFF2) and the REAL libraries behind the recorders, so the table effects assumed of the libraries are exercised too
+def _process_cases(kind, case):
+    def gen(rng, n):
+        cap = 10 if n <= 100 else 40
+        out = []
+        names = c11.names_cases(rng, 8)
+        for flavor in ("cff", "cff2", "ttf"):
+            for o in _OPT_KINDS[kind][2]:
+                for v in (None, 1, 2, 0):
+                    for s in _SUB_VALUES[case]:
+                        d = dict(rng.choice(names))
+                        if any(ord(ch) > 126 for g in d["glyphs"] for ch in g):
+                            continue
+                        d.update(flavor=flavor, lib={}, opt=o, ver=v, sub=s, upn=rng.choice([None, False, False, True]))
+                        out.append(d)
+        rng.shuffle(out)
+        return out[:cap]
+
+    return gen
+
+
+def _process_build(d):
+    pp = c11.compiled_font(d)
+    pp.info = None
+    del NATIVE_LIBS.calls[:-3]
+    return {"self": pp, "useProductionNames": d["upn"], "optimizeCFF": d["opt"], "cffVersion": d["ver"], "subroutinizer": d["sub"]}
+
+
+for _kind in _OPT_KINDS:
+    for _case in _SUB_PARAM:
+        CONTRACTS[f"{PP}.process#{_kind}/{_case}"].runtime = Runtime(
+            _process_cases(_kind, _case), _process_build,
+            call=_with_libs(lambda fn, a: fn(a["self"], useProductionNames=a["useProductionNames"], optimizeCFF=a["optimizeCFF"], cffVersion=a["cffVersion"], subroutinizer=a["subroutinizer"])),
+        )
+
+
+# =====================================================================================================
+# Option plumbing: how optimizeCFF / roundTolerance / cffVersion / subroutinizer travel from the compiler dataclass to
+# the outline compiler (charstring specialisation) and to the post-processor (subroutinisation, CFF format)
+
+# ---- OutlineOTFCompiler.__init__: level -> "specialise charstrings" ------------------------------------------------------------
+cls("C12_SuperInit", methods={"__init__": lambda ex, st, self, args, kwargs, node: Val.const(None)},
+    notes="super() inside OutlineOTFCompiler.__init__: BaseOutlineCompiler.__init__ is summarised by its FRAME only — it stores neither "
+          "roundTolerance nor optimizeCFF (syntactic obligation C12.frame.attribute-stores in the hook: an exhaustive AST scan of Lib/ufo2ft)")
+
+
+@trusted("c12.super_init", "frame summary of BaseOutlineCompiler.__init__ (no store to roundTolerance / optimizeCFF / _defaultAndNominalWidths): "
+         "discharged syntactically by hook obligation C12.frame.attribute-stores")
+def _super_init(ex, st, args, kwargs, node):
+    return ex.new_object(st, "C12_SuperInit")
+
+
+cls("C12Font", notes="the source font handed to the outline compiler (only passed along)")
+CLASSES["C12OTFCompiler"].fields["_defaultAndNominalWidths"] = Opt(INT)  # only ever None here
+
+for _kind, (_oty, _spec, _vals) in {"bool": (BOOL, "optimizeCFF", [False, True]), "level": (INT, "optimizeCFF >= 1", [-1, 0, 1, 2, 3])}.items():
+    contract(
+        f"{OC}.__init__", name=f"C12-{_kind}", props=["C12"],
+        params={"self": Ref("C12OTFCompiler"), "font": Ref("C12Font"), "roundTolerance": Opt(REAL), "optimizeCFF": _oty},
+        globals={"super": Val.obj(FuncRef(None, "c12.super_init"))},
+        modifies=["C12OTFCompiler.roundTolerance", "C12OTFCompiler.optimizeCFF", "C12OTFCompiler._defaultAndNominalWidths"],
+        ensures={
+            # charstrings are specialised iff True / level >= CFFOptimization.SPECIALIZE; nothing else depends on the level
+            "specialise-iff": f"self.optimizeCFF == ({_spec})",
+            # the rounding tolerance is the argument's business alone (None: round to integers)
+            "tolerance": "self.roundTolerance == (0.5 if roundTolerance is None else roundTolerance)",
+        },
+        canaries={"always-specialise": "self.optimizeCFF", "always-half": "self.roundTolerance == 0.5"},
+    )
+
+    def _oc_init_build(d):
+        import ufoLib2
+
+        from ufo2ft.outlineCompiler import OutlineOTFCompiler
+
+        ufo = ufoLib2.Font()
+        ufo.newGlyph("a").width = 500
+        return {"self": OutlineOTFCompiler.__new__(OutlineOTFCompiler), "font": ufo, "roundTolerance": d["rt"], "optimizeCFF": d["opt"]}
+
+    CONTRACTS[f"{OC}.__init__#C12-{_kind}"].runtime = Runtime(
+        lambda rng, n, _vals=_vals: [{"rt": r, "opt": o} for r in (None, 0, 0.001, 0.25, 0.5, 1) for o in _vals], _oc_init_build,
+    )
+
+# ---- PostProcessor.__init__ -----------------------------------------------------------------------------------------------------
+contract(
+    f"{PP}.__init__", props=["C12", "C11"],
+    # glyphSet: the compilers always pass the pre-processed glyph set (BaseCompiler.postprocess: glyphSet=glyphSet)
+    params={"self": Ref("PostProcessor"), "otf": Ref("PPFont"), "ufo": Ref("PPUfo"), "glyphSet": Ref("PPGlyphSet"), "info": Opt(Dict(STR, STR))},
+    modifies=["PostProcessor.ufo", "PostProcessor.glyphSet", "PostProcessor.info", "PostProcessor.otf", "PostProcessor._postscriptNames"],
+    ensures={
+        "font": "self.otf_id == otf.font_id", "source": "self.ufo is ufo", "glyph-set": "self.glyphSet is glyphSet", "info": "self.info == info",
+        # the renaming map is the UFO's public.postscriptNames (None when the key is absent)
+        "postscript-names": "self._postscriptNames == ufo.lib.get('public.postscriptNames')",
+    },
+    canaries={"no-names": "self._postscriptNames is None"},
+)
+
+
+def _pp_init_build(d):
+    pp = c11.build_pp(d)
+    return {"self": _PPC.__new__(_PPC), "otf": pp.otf, "ufo": pp.ufo, "glyphSet": dict((g.name, g) for g in pp.ufo), "info": None}
+
+
+CONTRACTS[f"{PP}.__init__"].runtime = Runtime(lambda rng, n: c11.names_cases(rng, min(n, 60)), _pp_init_build)
+
+# ---- the compiler dataclass (OTFCompiler) ---------------------------------------------------------------------------------------
+import dataclasses  # noqa: E402
+
+from pyvc.api import Opaque  # noqa: E402
+from pyvc.exprs import BoundMethod  # noqa: E402
+
+_OTFC = importlib.import_module("ufo2ft._compilers.otfCompiler").OTFCompiler
+_UTIL = importlib.import_module("ufo2ft.util")
+_DC_TYPED = {"optimizeCFF": INT, "roundTolerance": Opt(REAL), "cffVersion": Opt(INT), "subroutinizer": Opt(STR), "useProductionNames": Opt(BOOL)}
+_DC_FIELDS = [f.name for f in dataclasses.fields(_OTFC)] + ["logger", "timer"]  # what the instance __dict__ holds (__post_init__ adds the last two)
+
+
+def _dc_dict(ex, st, self):
+    """vars(compiler): every dataclass field (+ logger, timer) under its name"""
+    return Val(PYOBJ, None, {n: ex.read_field(st, self, n) for n in _DC_FIELDS if n not in ("postProcessorClass", "outlineCompilerClass")}, True)
+
+
+cls(
+    "C12Compiler",
+    fields={**{n: Opaque("dataclass_field_" + n) for n in _DC_FIELDS}, **_DC_TYPED},
+    derived={
+        "__dict__": _dc_dict,
+        "postProcessorClass": lambda ex, st, self: Val.obj(FuncRef(_PPC, "ufo2ft.postProcessor.PostProcessor")),
+        "outlineCompilerClass": lambda ex, st, self: Val.obj(FuncRef(importlib.import_module("ufo2ft.outlineCompiler").OutlineOTFCompiler, "ufo2ft.outlineCompiler.OutlineOTFCompiler")),
+    },
+    repo="ufo2ft._compilers.otfCompiler:OTFCompiler",
+    notes="OTFCompiler dataclass instance: optimizeCFF (CFFOptimization level), roundTolerance, cffVersion, subroutinizer, useProductionNames; every other "
+          "field opaque; postProcessorClass / outlineCompilerClass at their defaults (PostProcessor, OutlineOTFCompiler)",
+)
+
+
+def _c12_prune_marker():
+    """placeholder: the name `prune_unknown_kwargs` in BaseCompiler.postprocess / compileOutlines resolves to the model below"""
+
+
+@trusted("contracts.c12._c12_prune_marker", "util.prune_unknown_kwargs(kwargs, *callables) is RUN (the real function, on the real callables) on the KEY SET of kwargs; "
+         "the entries under the surviving keys are passed on unchanged. ASSUMED: the function does not look at the values (its body is a dict comprehension "
+         "`{k: v for k, v in kwargs.items() if k in known_args}`) [bounded: run-time cross-check of the callers]")
+def _prune(ex, st, args, kwargs, node):
+    d, callables = args[0], args[1:]
+    if not (d.is_py and isinstance(d.py, dict)) or kwargs:
+        raise Unsupported("prune_unknown_kwargs of a symbolic dict", node)
+    real = []
+    for c in callables:
+        o = c.py if c.is_py else None
+        if isinstance(o, FuncRef) and o.obj is not None:
+            real.append(o.obj)
+        elif isinstance(o, BoundMethod) and isinstance(o.recv.ty, T.Ref) and ex.real_class(ex.class_of(o.recv.ty)) is not None:
+            k = ex.real_class(ex.class_of(o.recv.ty))
+            real.append(getattr(k.__new__(k), o.name))  # a bound method of an (uninitialised) instance of the real class
+        else:
+            raise Unsupported(f"prune_unknown_kwargs: callable {c} is not a real function / class / bound method", node)
+    kept = _UTIL.prune_unknown_kwargs({k: None for k in d.py}, *real)
+    return Val(PYOBJ, None, {k: v for k, v in d.py.items() if k in kept}, True)
+
+
+_PRUNE_GLOBALS = {"prune_unknown_kwargs": Val.obj(FuncRef(_c12_prune_marker, "contracts.c12._c12_prune_marker"))}
+
+# ---- BaseCompiler.compileOutlines: optimizeCFF / roundTolerance reach the outline compiler ----------------------------------------
+BC = "ufo2ft._compilers.baseCompiler:BaseCompiler"
+cls("C12Compiled", fields={"compiler": Ref("C12OTFCompiler")}, notes="what OutlineOTFCompiler.compile() returns: remembers the outline compiler that built it")
+
+
+def _oc_compile(ex, st, self, args, kwargs, node):
+    r = ex.new_object(st, "C12Compiled")
+    ex.write_field(st, r, "compiler", self, node)
+    return r
+
+
+CLASSES["C12OTFCompiler"].methods["compile"] = _oc_compile
+
+
+def _oc_ctor(ex, st, args, kwargs, node):
+    """OutlineOTFCompiler(...) = a new instance initialised by the contract of its __init__ (level variant)"""
+    obj = ex.new_object(st, "C12OTFCompiler")
+    ex.call_contract(CONTRACTS[f"{OC}.__init__#C12-level"], [obj] + list(args), kwargs, st, node, implicit=1)
+    return obj
+
+
+contract(
+    f"{BC}.compileOutlines", name="C12", props=["C12"],
+    params={"self": Ref("C12Compiler"), "ufo": Ref("C12Font"), "glyphSet": Ref("C12GlyphSet")},
+    returns=Ref("C12Compiled"),
+    globals=_PRUNE_GLOBALS,
+    models={"ufo2ft.outlineCompiler.OutlineOTFCompiler": _oc_ctor},
+    modifies=["C12OTFCompiler.roundTolerance", "C12OTFCompiler.optimizeCFF", "C12OTFCompiler._defaultAndNominalWidths", "C12Compiled.compiler"],
+    ensures={
+        # charstring specialisation is on iff the compiler's level is >= CFFOptimization.SPECIALIZE ...
+        "level-reaches-outline-compiler": "result.compiler.optimizeCFF == (self.optimizeCFF >= 1)",
+        # ... and the rounding tolerance is the compiler's, whatever the level
+        "tolerance-reaches-outline-compiler": "result.compiler.roundTolerance == (0.5 if self.roundTolerance is None else self.roundTolerance)",
+    },
+    canaries={"always-specialise": "result.compiler.optimizeCFF"},
+)
+
+
+def _co_build(d):
+    from types import SimpleNamespace
+
+    import ufoLib2
+
+    from ufo2ft.outlineCompiler import OutlineOTFCompiler
+
+    class Rec(OutlineOTFCompiler):
+        def compile(self):
+            return SimpleNamespace(compiler=self)
+
+    ufo = ufoLib2.Font()
+    ufo.newGlyph("a").width = 500
+    kw = {} if d["rt"] == "unset" else {"roundTolerance": d["rt"]}
+    return {"self": _OTFC(optimizeCFF=d["opt"], outlineCompilerClass=Rec, **kw), "ufo": ufo, "glyphSet": {g.name: g for g in ufo}}
+
+
+CONTRACTS[f"{BC}.compileOutlines#C12"].runtime = Runtime(
+    lambda rng, n: [{"rt": r, "opt": o} for r in ("unset", None, 0, 0.001, 0.25, 0.5) for o in (0, 1, 2, 3)], _co_build,
+)
+
+# ---- BaseCompiler.postprocess: optimizeCFF / cffVersion / subroutinizer / useProductionNames reach PostProcessor.process -------------
+# (static builds: BaseCompiler.compile calls self.postprocess(font, ufo, glyphSet), i.e. info=None)
+_K_PP, _U_PP = c11.keep_and_use(ufo="ufo", arg="self.useProductionNames", ps="ufo.lib.get('public.postscriptNames')")
+_T_POST = Table("self.optimizeCFF >= 2", "ttf", "result", ver="self.cffVersion", sub="self.subroutinizer", log="ttf.libs.calls")
+_SUB_IS = {"default": "self.subroutinizer is None", "cffsubr": "self.subroutinizer == 'cffsubr'", "compreffor": "self.subroutinizer == 'compreffor'",
+           "unknown": "self.subroutinizer is not None and self.subroutinizer != 'cffsubr' and self.subroutinizer != 'compreffor'"}
+_POSTPROCESS_MOD = sorted(set(_PROCESS_MOD) | set(CONTRACTS[f"{PP}.__init__"].modifies))
+
+for _case in _SUB_PARAM:
+    _ens, _raises, _req = process_contract_parts(_T_POST, _case, _K_PP, _U_PP)
+    contract(
+        f"{BC}.postprocess", name=f"C12/{_case}", props=["C12"],
+        params={"self": Ref("C12Compiler"), "ttf": Ref("PPFont"), "ufo": Ref("PPUfo"), "glyphSet": Ref("PPGlyphSet"), "info": Const(None)},
+        returns=Ref("PPFont"),
+        globals=_PRUNE_GLOBALS,
+        requires=[_SUB_IS[_case], _req],
+        calls={f"{PP}.process": f"{PP}.process#level/{_case}"},
+        modifies=_POSTPROCESS_MOD,
+        raises=_raises,
+        ensures=_ens,
+        canaries={"never-a-library-call": _T_POST.no_call(), "always-cff1": "'CFF ' in result"},
+    )
+
+
+def _postprocess_cases(case):
+    def gen(rng, n):
+        cap = 10 if n <= 100 else 40
+        out = []
+        names = c11.names_cases(rng, 8)
+        for flavor in ("cff", "cff2", "ttf"):
+            for o in (0, 1, 2, 3):
+                for v in (None, 1, 2, 0):
+                    for s in _SUB_VALUES[case]:
+                        d = dict(rng.choice(names))
+                        if any(ord(ch) > 126 for g in d["glyphs"] for ch in g):
+                            continue
+                        d.update(flavor=flavor, lib={}, opt=o, ver=v, sub=s, upn=rng.choice([None, False, False, True]))
+                        out.append(d)
+        rng.shuffle(out)
+        return out[:cap]
+
+    return gen
+
+
+def _postprocess_build(d):
+    pp = c11.compiled_font(d)
+    del NATIVE_LIBS.calls[:-3]
+    comp = _OTFC(optimizeCFF=d["opt"], cffVersion=d["ver"], subroutinizer=d["sub"], useProductionNames=d["upn"])
+    return {"self": comp, "ttf": pp.otf, "ufo": pp.ufo, "glyphSet": pp.glyphSet, "info": None}
+
+
+for _case in _SUB_PARAM:
+    CONTRACTS[f"{BC}.postprocess#C12/{_case}"].runtime = Runtime(
+        _postprocess_cases(_case), _postprocess_build, call=_with_libs(lambda fn, a: fn(a["self"], a["ttf"], a["ufo"], a["glyphSet"])),
+    )
